@@ -339,7 +339,13 @@ def apply(s, step, ctx):
             bkind = ['cell', 'facet'][step['basis'] % 2] if kind != 'line' else 'cell'
             if m.nelements > 40:
                 raise Reject()
-            b = (CellBasis if bkind == 'cell' else FacetBasis)(m, e, intorder=3)
+            b = attempt(lambda: (CellBasis if bkind == 'cell' else FacetBasis)(m, e, intorder=3))
+            if isinstance(b, Exception):
+                # the library refuses (e.g. Newton inversion on a badly conditioned refined cell): fresh objects must refuse alike
+                fresh_b = attempt(lambda: (CellBasis if bkind == 'cell' else FacetBasis)(rebuild(ent['recipe']), build_element(d), intorder=3))
+                compare(ctx, 'kept_basis_result', b, fresh_b, dict(sig, elem=key(d)))
+                after()
+                return
             s.bases = getattr(s, 'bases', [])
             s.bases.append(dict(obj=b, recipe=list(ent['recipe']), elem=d, bkind=bkind))
             s.bases = s.bases[-3:]
